@@ -393,83 +393,188 @@ def _is_name(n, name):
 
 
 def rule_slot_order(repo, rep):
-  R = 'R-FORM:tuple-slot-order'
-  rep.rule(R, 'preprocess_tuples builds output slot j from '
-           'preprocessor(tuples[:, j]) for j = 0..t-1 in order, stacked '
-           'along axis 1')
+  """preprocess_tuples / preprocess_points decided by interpretation"""
+  from ..minterp import Interp, World, Undecided, Raised, Lib
+  from .c07b import S, tg
+  R = 'R-INTERP:tuple-formation'
+  rep.rule(R, 'preprocess_tuples interpreted for tuple sizes 2, 3, 4: output '
+           'slot j is preprocessor(tuples[:, j]) for j = 0..t-1 in order '
+           'along axis 1, in the dtype the preprocessor returns (stacking or '
+           'writing into a buffer of that dtype); preprocess_points returns '
+           'preprocessor(points); an exception raised by the preprocessor at '
+           'any slot surfaces as PreprocessorError')
+
+  class Buf:
+    def __init__(self, shape, dtype):
+      self.shape, self.dtype, self.slots = shape, dtype, {}
+
+  class W(World):
+    def __init__(self, t, fail_at=None):
+      self.t, self.fail_at, self.ncall = t, fail_at, 0
+
+    def attr(self, it, v, attr, node):
+      if v == S('tup') and attr == 'shape':
+        return (7, self.t)
+      if v == S('tup') and attr == 'T':
+        return S('tupT')
+      if tg(v) == 'pts':
+        if attr == 'shape':
+          return (7, 3)
+        if attr == 'dtype':
+          return S('pre-dtype')
+        if attr == 'ndim':
+          return 2
+      if isinstance(v, Buf) and attr == 'shape':
+        return v.shape
+      return NotImplemented
+
+    def subscript(self, it, base, idx, node):
+      full = slice(None, None, None)
+      if base == S('tup') and isinstance(idx, tuple) and idx[0] == full \
+              and isinstance(idx[1], int) and \
+              all(x in (full, Ellipsis) for x in idx[2:]):
+        return S('col', idx[1] % self.t)
+      if base == S('tup') and isinstance(idx, tuple) and \
+              idx[0] is Ellipsis and len(idx) == 2 and \
+              isinstance(idx[1], int):
+        return S('col', idx[1] % self.t)
+      if base == S('tupT') and isinstance(idx, int):
+        return S('col', idx % self.t)
+      if tg(base) == 'pts' and isinstance(idx, tuple) and idx[0] == full \
+              and idx[1] is None and all(x == full for x in idx[2:]):
+        return S('pts3', base[1])
+      return NotImplemented
+
+    def store(self, it, base, idx, value, node):
+      full = slice(None, None, None)
+      if isinstance(base, Buf) and isinstance(idx, tuple) and \
+              idx[0] == full and isinstance(idx[1], int) and \
+              all(x in (full, Ellipsis) for x in idx[2:]) and \
+              tg(value) == 'pts':
+        base.slots[idx[1]] = value[1]
+        return None
+      return NotImplemented
+
+    def call(self, it, d, recv, args, kwargs, node):
+      if d == '()' and recv == S('pre') and len(args) == 1 and not kwargs:
+        k = self.ncall
+        self.ncall += 1
+        if self.fail_at is not None and k == self.fail_at:
+          raise Raised(['KeyError', 'LookupError', 'Exception'], node)
+        if tg(args[0]) == 'col':
+          return S('pts', args[0][1])
+        if args[0] == S('points'):
+          return S('formed-points')
+        raise Undecided('preprocessor applied to %r' % (args[0],))
+      if d == 'len' and args and args[0] == S('tup'):
+        return 7
+      if d.startswith('numpy.'):
+        short = d.rsplit('.', 1)[-1]
+        if short in ('column_stack', 'hstack') and len(args) == 1 and \
+                isinstance(args[0], (list, tuple)) and \
+                all(tg(x) == 'pts3' for x in args[0]):
+          return S('formed', tuple(x[1] for x in args[0]), 'pre-dtype')
+        if short == 'concatenate' and len(args) == 1 and \
+                kwargs.get('axis') == 1 and \
+                isinstance(args[0], (list, tuple)) and \
+                all(tg(x) == 'pts3' for x in args[0]):
+          return S('formed', tuple(x[1] for x in args[0]), 'pre-dtype')
+        if short == 'stack' and len(args) == 1 and \
+                kwargs.get('axis') == 1 and \
+                isinstance(args[0], (list, tuple)) and \
+                all(tg(x) == 'pts' for x in args[0]):
+          return S('formed', tuple(x[1] for x in args[0]), 'pre-dtype')
+        if short in ('column_stack', 'hstack', 'concatenate', 'stack',
+                     'vstack', 'dstack'):
+          return S('misformed', short)
+        if short == 'shape' and len(args) == 1 and tg(args[0]) == 'pts':
+          return (7, 3)
+        if short in ('empty', 'zeros') and args and \
+                isinstance(args[0], tuple):
+          dt = kwargs.get('dtype', args[1] if len(args) > 1 else None)
+          return Buf(args[0], dt)
+        if short == 'result_type' and args and \
+                all(tg(a) == 'pts' or a == S('pre-dtype') for a in args):
+          return S('pre-dtype')
+      return NotImplemented
   f = repo.get_func('_util.preprocess_tuples')
+  rep.analysed(f)
   ps = f.params()
+  key = '_util.preprocess_tuples'
+  bad = unk = None
   if len(ps) != 2:
-    rep.unknown(R, '_util.preprocess_tuples', site(f), 'unexpected params')
-    return
-  tup, pre = ps
-  calls = [c for c in astutil.calls_in(f.node) if _is_name(c.func, pre)]
-  if len(calls) != 1:
-    rep.unknown(R, '_util.preprocess_tuples', site(f),
-                '%d calls through the preprocessor' % len(calls))
-    return
-  call = calls[0]
-  comps = astutil.enclosing(f.node, call, (ast.ListComp, ast.GeneratorExp))
-  if not comps:
-    rep.unknown(R, '_util.preprocess_tuples', site(f, call),
-                'tuple formation is not a comprehension (idiom not in table)')
-    return
-  comp = comps[0][0]
-  problems = []
-  if len(comp.generators) != 1 or comp.generators[0].ifs or \
-          not isinstance(comp.generators[0].target, ast.Name):
-    problems.append('comprehension is filtered or nested')
+    rep.unknown(R, key, site(f), 'unexpected parameters')
   else:
-    g = comp.generators[0]
-    var = g.target.id
-    it = ast.unparse(g.iter)
-    n = '%s.shape[1]' % tup
-    if it not in ('range(%s)' % n, 'range(0, %s)' % n, 'range(0, %s, 1)' % n,
-                  'np.arange(%s)' % n):
-      problems.append('iterates over %s instead of range(%s)' % (it, n))
-    if len(call.args) != 1 or call.keywords:
-      problems.append('preprocessor called with unexpected arguments')
-    else:
-      a = ast.unparse(call.args[0])
-      if a not in ('%s[:, %s]' % (tup, var), '%s[:, %s, ...]' % (tup, var),
-                   '%s[..., %s]' % (tup, var), '%s.T[%s]' % (tup, var)):
-        problems.append('slot %s selects %s instead of %s[:, %s]'
-                        % (var, a, tup, var))
-  # stacking
-  st = astutil.stmt_of(f.node, call)
-  text = ast.unparse(st)
-  elt = ast.unparse(comp.elt)
-  call_txt = ast.unparse(call)
-  stack_calls = [c for c in astutil.calls_in(st)
-                 if repo.dotted(f.module, c.func) and
-                 canon(repo.dotted(f.module, c.func)) in (
-                     'numpy.column_stack', 'numpy.stack', 'numpy.concatenate',
-                     'numpy.hstack')]
-  if not stack_calls:
-    problems.append('slots are not stacked with column_stack/stack/'
-                    'concatenate')
+    for t in (2, 3, 4):
+      for fail_at in [None] + list(range(t)):
+        w = W(t, fail_at)
+        try:
+          out = Interp(repo, f, w).run({ps[0]: S('tup'), ps[1]: S('pre')})
+        except Undecided as u:
+          unk = unk or '%s (tuple size %d)' % (u, t)
+          continue
+        if fail_at is not None:
+          if out[0] != 'raise' or 'PreprocessorError' not in out[1]:
+            bad = bad or 'an exception of the preprocessor at slot %d ' \
+                'surfaces as %s' % (fail_at, out[1][0] if out[0] == 'raise'
+                                    else 'a normal return')
+          continue
+        if out[0] == 'raise':
+          bad = bad or 'raises %s for tuple size %d' % (out[1][0], t)
+          continue
+        res = out[1]
+        if isinstance(res, Buf):
+          order = tuple(res.slots.get(j) for j in range(t))
+          dtype = res.dtype
+          shape_ok = res.shape[:2] == (7, t)
+          res = S('formed', order, 'pre-dtype' if dtype == S('pre-dtype')
+                  else dtype)
+          if not shape_ok:
+            bad = bad or 'buffer of shape %s for %d tuples of size %d' % (
+                res.shape, 7, t)
+        if tg(res) == 'misformed':
+          bad = bad or 'the formed points are joined with numpy.%s along ' \
+              'another axis than 1' % res[1]
+        elif tg(res) != 'formed':
+          unk = unk or 'returns %r' % (res,)
+        elif res[1] != tuple(range(t)):
+          bad = bad or 'for tuple size %d the output slots hold the ' \
+              'points of input slots %s' % (t, list(res[1]))
+        elif res[2] != 'pre-dtype':
+          bad = bad or 'the formed tuples are written into a buffer of ' \
+              'dtype %s: data of another dtype than float64 is cast, so the ' \
+              'indicator route differs from passing the formed tuples' % (
+                  'float64 (default)' if res[2] is None else res[2])
+  if bad:
+    rep.refuted(R, key, site(f), bad)
+  elif unk:
+    rep.unknown(R, key, site(f), unk)
   else:
-    sc = stack_calls[0]
-    d = canon(repo.dotted(f.module, sc.func))
-    newaxis = elt in (call_txt + '[:, np.newaxis]', call_txt + '[:, None]',
-                      call_txt + '[:, np.newaxis, :]',
-                      call_txt + '[:, None, :]')
-    axis = [k for k in sc.keywords if k.arg == 'axis']
-    axis = ast.unparse(axis[0].value) if axis else None
-    good = (d == 'numpy.column_stack' and newaxis) or \
-        (d == 'numpy.stack' and axis == '1' and elt == call_txt) or \
-        (d == 'numpy.concatenate' and axis == '1' and newaxis) or \
-        (d == 'numpy.hstack' and newaxis)
-    if not good:
-      problems.append('stacking %s of %s does not place slot j on axis 1'
-                      % (d, elt))
-  if problems:
-    rep.refuted(R, '_util.preprocess_tuples', site(f, call),
-                '; '.join(problems))
+    rep.derived(R, key, site(f))
+  g = repo.get_func('_util.preprocess_points')
+  rep.analysed(g)
+  gp = g.params()
+  key = '_util.preprocess_points'
+  bad = unk = None
+  for fail_at in (None, 0):
+    w = W(1, fail_at)
+    try:
+      out = Interp(repo, g, w).run({gp[0]: S('points'), gp[1]: S('pre')})
+    except Undecided as u:
+      unk = unk or str(u)
+      continue
+    if fail_at is not None:
+      if out[0] != 'raise' or 'PreprocessorError' not in out[1]:
+        bad = bad or 'an exception of the preprocessor surfaces as %s' % (
+            out[1][0] if out[0] == 'raise' else 'a normal return')
+    elif out != ('return', S('formed-points')):
+      bad = bad or 'returns %r, not preprocessor(points)' % (out[1],)
+  if bad:
+    rep.refuted(R, key, site(g), bad)
+  elif unk:
+    rep.unknown(R, key, site(g), unk)
   else:
-    rep.derived(R, '_util.preprocess_tuples', site(f, call),
-                sample=dict(rule=R, element=elt,
-                            iterates=ast.unparse(comp.generators[0].iter)))
+    rep.derived(R, key, site(g))
 
 
 def rule_wrapped(repo, rep):
